@@ -121,8 +121,9 @@ CONTRACTS = {}
 
 class Harness:
     def __init__(self, fn, hid, prop, inputs, functions, body_of, uses, note, idealised, timeout, regions,
-                 kind="proof", overrides=None, sampler=None, backend="z3"):
+                 kind="proof", overrides=None, sampler=None, backend="z3", uf_axioms=False):
         self.kind = kind
+        self.uf_axioms = uf_axioms
         self.backend = backend
         self.sampler = sampler
         self.overrides = dict(overrides or {})
@@ -142,7 +143,7 @@ class Harness:
 
 
 def harness(prop, inputs, functions=(), body_of=(), uses="default", note="", idealised=False, timeout=None,
-            hid=None, regions=(), kind="proof", overrides=None, sampler=None, backend="z3"):
+            hid=None, regions=(), kind="proof", overrides=None, sampler=None, backend="z3", uf_axioms=False):
     """register a proof harness.
     prop      property id(s) the obligation belongs to (str or tuple)
     inputs    {param: Domain}
@@ -169,7 +170,7 @@ def harness(prop, inputs, functions=(), body_of=(), uses="default", note="", ide
     def deco(fn):
         h = Harness(fn, hid or (fn.__module__.split(".")[-1] + "." + fn.__name__), prop, inputs,
                     list(functions), list(body_of), uses, note, idealised, timeout, list(regions), kind,
-                    overrides, sampler, backend)
+                    overrides, sampler, backend, uf_axioms)
         HARNESSES[h.id] = h
         fn.harness = h
         return fn
